@@ -331,8 +331,39 @@ package domain
 //@   # (when the file is rolled over, Close / acquireWriter can fail after the pointer went in)
 //@   ensures err != nil && !shouldPersist && old(w.fileSize) < w.fc.realFileSizeCap() ==> sameSeq(w.idx.mu.pointers, old(w.idx.mu.pointers))
 //@   ensures old(w.closed) ==> err != nil
+//@   # writer protocol (the precondition above, kept by every commit): the writer takes the update
+//@   # path only for a domain that one of its own commits put into the index - a commit that
+//@   # fails (conflict, validation, closed) leaves the writer's own record of that as it was, so a
+//@   # retry after a refused first commit is again an insert and again refused (C03: previously
+//@   # committed data of another writer stays unchanged)
+//@   ensures err != nil ==> w.prevCommit == old(w.prevCommit) && w.Start == old(w.Start)
+//@   ensures w.prevCommit != 0 ==> (exists k int :: 0 <= k && k < len(w.idx.mu.pointers) && w.idx.mu.pointers[k].Start == w.Start)
 //@   modifies w, w.idx
 //@   assert_before "f(ctx, ptr, shouldPersist)" commitPtr(w, ptr) && ptr.Start < ptr.End
+//@   # the choice between insert and update is made from the state the writer entered with
+//@   assert_before "f(ctx, ptr, shouldPersist)" w.prevCommit == old(w.prevCommit)
+
+//@ # ---------------------------------------------------------------- Writer.Close (C02)
+//@ # "The data of a closed writer is durable": with deferred index persists (auto commit with a
+//@ # persist interval) commits may have changed the in-memory index only; Close must write the index
+//@ # from persistHead on and report the outcome of that write. Ghost: SpecClosePrepared is 1 once
+//@ # the persist closure for this Close has been prepared; SpecPersistResult() names what the
+//@ # closure returned.
+//@ ghost SpecClosePrepared *int
+//@ spec func SpecPersistResult() error
+//@ func (w *Writer) Close() (err error)
+//@   pragma opaque_func_values persistPointers onClose
+//@   pragma func_value_view persistPointers=SpecPersistResult
+//@   requires w.idx != nil && w.EnableAutoCommit != nil && *SpecClosePrepared == 0
+//@   requires 0 <= w.idx.persistHead && w.idx.persistHead <= len(w.idx.mu.pointers)
+//@   requires w.idx.indexPersist != nil && w.idx.indexPersist.p != nil && w.idx.indexPersist.idx == w.idx
+//@   havoc_after "persistPointers := w.idx.indexPersist.prepare(w.idx.persistHead)" SpecClosePrepared
+//@   assume_after "persistPointers := w.idx.indexPersist.prepare(w.idx.persistHead)" *SpecClosePrepared == 1
+//@   # a successful Close of a writer with deferred persists has written the index (whatever the
+//@   # writer's last commit was: a rollover resets prevCommit, a refused commit leaves it at 0)
+//@   ensures !old(w.closed) && old(*w.EnableAutoCommit) && old(w.AutoIndexPersistInterval) > 0 && err == nil ==> *SpecClosePrepared == 1 && SpecPersistResult() == nil
+//@   ensures w.closed
+//@   modifies w, SpecClosePrepared
 
 //@ # ---------------------------------------------------------------- time-range delete: safety and the persist protocol (C02/C04)
 //@ # Thin contract: the offset resolvers are arbitrary function values, so nothing is claimed about
